@@ -20,7 +20,7 @@ def alphabet(types, variants='all'):
   """[(type, variant, arity)] ; variants: 'all' | 'first' | dict type->list."""
   out = []
   for t in types:
-    vs = irm.VARIANTS[t]
+    vs = irm.variants_of(t, extended=(variants == 'allx'))
     if variants == 'first':
       vs = vs[:1]
     elif isinstance(variants, dict) and t in variants:
